@@ -222,6 +222,39 @@ class RefMDP:
                 raise AssertionError(f"reference optimal value not a Bellman fixed point at {s}: {best} vs {V[s]}")
         return {"V": V, "Q": Q, "n_policies": K, "policies": pols, "Vs": Vs}
 
+    def optimal_large(self, zero=None):
+        """V*, Q* without enumeration: Howard policy iteration (numpy, independent of msdm) from the first available
+        action, certified by the Bellman optimality residual. For gamma < 1, or gamma == 1 when every policy is proper."""
+        gamma = self.gamma
+        zero = self.absorbing if zero is None else zero
+        n = self.n
+        pol = np.array([int(np.argmax(self.avail[s])) for s in range(n)])
+        idx = np.arange(n)
+        V = np.zeros(n)
+        for _ in range(10 * n + 50):
+            P = self.T[idx, pol, :].copy()
+            r = self.SR[idx, pol].copy()
+            P[zero, :] = 0
+            r[zero] = 0
+            V = np.linalg.solve(np.eye(n) - gamma * P, r)
+            V[zero] = 0.0
+            Q = self.SR + gamma * (self.T * V[None, None, :]).sum(-1)
+            Q[~self.avail] = NEG_INF
+            best = Q.max(axis=1)
+            new = np.where(Q[idx, pol] >= best - 1e-12 * (1 + np.abs(best)), pol, Q.argmax(axis=1))
+            if (new == pol).all():
+                break
+            pol = new
+        else:
+            raise AssertionError("reference policy iteration did not settle")
+        for s in range(n):
+            if zero[s] or not self.avail[s].any():
+                continue
+            b = Q[s][self.avail[s]].max()
+            if not abs(b - V[s]) <= 1e-8 * (1 + abs(V[s])):
+                raise AssertionError(f"reference optimal value not a Bellman fixed point at {s}: {b} vs {V[s]}")
+        return {"V": V, "Q": Q, "n_policies": None, "policies": None, "Vs": None}
+
     def rmax_abs(self):
         pos = self.W > 0
         if not pos.any():
